@@ -258,7 +258,12 @@ Definition ensure_phi_arg (env : senv) (s : stmt) : stmt :=
     | Some n =>
       if existsb (fun a => opt_eqb N.eqb (vn_version a) (Some n)) args then s
       else SSubst m x op (EPhi (args ++ [with_version x n]) k) sv st
-    | None => s
+    | None =>
+      (* no version reaches along this edge: the unversioned name records the
+         path on which the variable is still unassigned (fix for the phi without
+         the default path) *)
+      if existsb (vname_eqb (without_version x)) args then s
+      else SSubst m x op (EPhi (args ++ [without_version x]) k) sv st
     end
   | _ => s
   end.
